@@ -271,11 +271,11 @@ class XPathToken(Token[ta.XPathTokenType]):
                 return results
             if isinstance(results[0], self.registry.function_token):
                 return results[0]
-            if self.symbol in ('.', '/', '//', '[', '(', '@', 'for',):
+            if self.symbol in ('.', '/', '//', '[', '(', '@', 'for', '|', 'union', 'intersect', 'except'):
                 return results
             if self.symbol in ('cast', 'castable', '-', '+', 'some', 'every'):
                 return cast(AnyAtomicType, results[0])
-            if self.label == 'kind test' or isinstance(self, self.registry.axis_token):
+            if self.label in ('kind test', 'axis') or isinstance(self, self.registry.axis_token):
                 return results
             if self.label == 'literal':
                 return cast(AnyAtomicType, results[0])
